@@ -90,6 +90,7 @@ class FuncResult(object):
         self.ins_visited = 0
         self.assumed_indexed = 0
         self.callargs = []       # (ins, target, {argreg: value})
+        self.mindex = {}         # ins addr -> abstract value of the index register of its memory operand
         self.escapes = []        # (ins, value) : symbol addresses stored to memory
         self.reg_at = {}         # optional: ins addr -> regs dict (only if keep_regs)
 
@@ -264,12 +265,18 @@ class Interp(object):
         for i in f.blocks[b]:
             if res is not None:
                 res.ins_visited += 1
-                if self.keep_regs:
+                if self.keep_regs == "rsp":
+                    if i.op.startswith(("PUSH", "POP")):
+                        res.reg_at[i.addr] = {"RSP": regs["RSP"]}
+                elif self.keep_regs:
                     res.reg_at[i.addr] = dict(regs)
                 if i.mem >= 0:
                     av = self.addr_of(regs, i)
                     if av is not None:
                         res.maddr[i.addr] = (av[0], av[1], i.memsize())
+                        m = i.memop()
+                        if m and m[2]:
+                            res.mindex[i.addr] = self.val(regs, m[2])
             self.step(f, i, regs, stack, res)
 
     # ---- stack slot helpers
